@@ -1513,8 +1513,10 @@ class LuaFormatterWriter(LuaASTEchoWriter):
             spaces = re.sub(br'^ *(--|//)', br'\1', spaces)
 
         # If next non-space is on its own line, indent it at the indent level.
+        # ('$' would also match before a final newline, indenting a blank
+        # line.)
         spaces = re.sub(
-            br'\n *$', b'\n' + b' ' * self._indent_mult * self._indent,
+            br'\n *\Z', b'\n' + b' ' * self._indent_mult * self._indent,
             spaces)
         if start_pos == 0:
             spaces = re.sub(br'^ *$', b'', spaces)
